@@ -13,16 +13,21 @@ import (
 
 // C07: left recursion is detected: rejected by default, never silently accepted.
 func C07(c *Ctx) {
-	c.Rule("rule-reference graphs of 1-6 rules with references placed after every kind of nullable prefix (? * &e !e &{} #{} \"\" nullable rules), inside later alternatives of choices whose earlier alternatives are nullable, behind predicates, next to consuming look-alikes (+, classes incl. inverted ones, any); no throw/recover. " +
+	c.Rule("rule-reference graphs of 1-6 rules with references placed after every kind of nullable prefix (? * &e !e &{} #{} \"\" nullable rules), inside later alternatives of choices whose earlier alternatives are nullable, behind predicates, next to consuming look-alikes (+, classes incl. inverted ones, any); every fourth grammar also uses throw and recover. " +
 		"Each grammar is given to pigeon without -support-left-recursion. Oracle, decided by witnesses in both directions: " +
 		"accepted although the independent first-call analysis finds a cycle => the model (with an active-set check) searches bounded-exhaustive and derived inputs for a concrete re-entry of a rule at an offset where it is active; the real parser is then run on that witness under Debug(true)+MaxExpressions and its own trace must not show the re-entry (and a plain run must not die of stack overflow); a static cycle without a dynamic witness is counted as inconclusive. " +
 		"Rejected ('grammar contains left recursion') although the analysis finds no cycle and the model never re-enters on any generated input => violation. " +
 		"distinct_nontrivial = distinct grammars with >=2 rules and >=1 rule reference reachable without consuming input")
-	c.Assume("throw/recover is excluded (its static treatment is a convention); a cycle guarded by an always-false predicate has no dynamic witness and is not reported")
+	c.Assume("for grammars with throw/recover only the 'silently accepted' direction is decided (pigeon's static treatment of recovery expressions is a convention that may reject more); a cycle guarded by an always-false predicate has no dynamic witness and is not reported")
 	rng := rand.New(rand.NewSource(c.Seed*887 + 7))
 	ng := c.N(400, 6000)
 	gs := c07Strata()
 	for i := 0; i < ng; i++ {
+		if i%4 == 3 {
+			// throw/recover grammars: only the "silently accepted" direction is decided for them
+			gs = append(gs, genRefGraphTR(rng, false, true))
+			continue
+		}
 		gs = append(gs, genRefGraph(rng, i%3 == 0))
 	}
 	chunk := 200
@@ -112,6 +117,10 @@ func (c *Ctx) c07Chunk(gs []*gast.Grammar, rng *rand.Rand) {
 				c.Sample(map[string]any{"grammar": gast.Short(g), "pigeon": "rejected: left recursion", "model": "first-call cycle"})
 			}
 		case rejectedLR && !inf.static:
+			if g.KindsUsed()[gast.Throw]+g.KindsUsed()[gast.Recovery] > 0 {
+				c.CovAdd("throw_recover_rejections_not_judged", 1) // pigeon's static treatment is a convention
+				continue
+			}
 			_, _, key, n := findReentry(g, c07Inputs(g, rng))
 			if key != "" {
 				c.Broken("the model re-enters " + key + " although its own static analysis finds no cycle: " + gast.Short(g))
@@ -184,37 +193,20 @@ func (c *Ctx) c07Chunk(gs []*gast.Grammar, rng *rand.Rand) {
 	}
 }
 
-// c07Sig: known finding F13 = a cycle that passes through an alternative k>0 of a choice whose
-// earlier alternative is nullable (pigeon's choice nullability stops at the first nullable
-// alternative and never analyses the later ones).
+// c07Sig classifies a silently accepted grammar under the known findings F13 / F18 with an
+// emulation of pigeon's own analysis (c07emu.go); anything else is a violation.
 func c07Sig(g *gast.Grammar, dir string) []string {
 	if dir != "accepted" {
 		return nil
 	}
-	a := gast.Analyze(g)
-	lr := a.LeftRecursive()
-	// does the cycle survive when later alternatives after a nullable one are cut off?
-	cut := g.Clone()
-	ca := gast.Analyze(cut)
-	for _, r := range cut.Rules {
-		gast.Walk(r.Expr, func(e *gast.Expr) {
-			if e.Kind != gast.Choice {
-				return
-			}
-			for i, alt := range e.Subs {
-				if ca.ExprNullable(alt) && i+1 < len(e.Subs) {
-					e.Subs = e.Subs[:i+1]
-					if len(e.Subs) == 1 {
-						// keep the shape legal for the analysis only
-						e.Subs = append(e.Subs, gast.L("\x00never"))
-					}
-					return
-				}
-			}
-		})
+	full := pigeonSeesCycle(g, false)
+	if !full && g.KindsUsed()[gast.Throw] > 0 {
+		// the re-entry goes through a throw whose handler is in force only dynamically (it is not
+		// part of the rule that throws): invisible to pigeon's per-rule convention as designed
+		return []string{"F18-dynamic-handler-cycle"}
 	}
-	cut.Finalize()
-	if len(lr) > 0 && len(gast.Analyze(cut).LeftRecursive()) == 0 {
+	if full && !pigeonSeesCycle(g, true) {
+		// found when every alternative of a choice is visited, lost by the short-circuit
 		return []string{"F13-choice-nullable-shortcircuit"}
 	}
 	return nil
@@ -231,7 +223,16 @@ func (c *Ctx) runKnownC07() {
 	g.Finalize()
 	res := c.W.Gen(gast.Print(g, gast.PrintOpts{Pkg: "p", Plain: true}))
 	c.MarkKnownStillFails("F13-choice-nullable-shortcircuit", res.Exit == 0)
-	c.Eval(1)
+	g2 := &gast.Grammar{Rules: []*gast.Rule{
+		{Name: "A", Expr: gast.Rec(gast.Ref("B"), gast.Ref("R"), "L1")},
+		{Name: "B", Expr: gast.S(gast.L("x"), gast.Ref("C"))},
+		{Name: "C", Expr: gast.Thr("L1")},
+		{Name: "R", Expr: gast.Ref("C")},
+	}}
+	g2.Finalize()
+	res2 := c.W.Gen(gast.Print(g2, gast.PrintOpts{Pkg: "p", Plain: true}))
+	c.MarkKnownStillFails("F18-dynamic-handler-cycle", res2.Exit == 0)
+	c.Eval(2)
 }
 
 func c07Strata() []*gast.Grammar {
@@ -244,6 +245,9 @@ func c07Strata() []*gast.Grammar {
 		mk(r("S", gast.C(gast.S(gast.Cl(&gast.ClassSpec{Inverted: true}), gast.Ref("S")), gast.L("x")))),
 		mk(r("S", gast.C(gast.S(gast.Opt(gast.L("a")), gast.Ref("T")), gast.L("b"))), r("T", gast.S(gast.Star(gast.L("c")), gast.Ref("S")))),
 		mk(r("S", gast.S(gast.Plus(gast.L("a")), gast.Ref("S"))), r("T", gast.S(gast.Dot(), gast.Ref("T")))),
+		mk(r("A", gast.Rec(gast.Ref("B"), gast.Ref("R"), "L1")), r("B", gast.S(gast.L("x"), gast.Ref("C"))), r("C", gast.Thr("L1")), r("R", gast.Ref("C"))),
+		mk(r("Stmt", gast.Rec(gast.S(gast.Ref("Expr"), gast.L(";")), gast.Ref("Resync"), "L1")), r("Expr", gast.C(gast.Plus(gast.Cl(gast.Chars("01"))), gast.Thr("L1"))),
+			r("Resync", gast.S(gast.Star(gast.Cl(&gast.ClassSpec{Chars: []rune(";01"), Inverted: true})), gast.Ref("Stmt")))),
 		mk(r("S", gast.S(gast.Opt(gast.S(gast.Ref("N"), gast.Ref("S"))), gast.L("x"))), r("N", gast.Opt(gast.L("a")))),
 		mk(r("S", gast.S(gast.Star(gast.S(gast.Ref("N"), gast.Ref("S"), gast.L("y"))), gast.L("x"))), r("N", gast.Opt(gast.L("a")))),
 	}
